@@ -16,7 +16,7 @@ from concurrent.futures import ThreadPoolExecutor
 HOME = os.path.dirname(os.path.dirname(os.path.abspath(__file__)))
 SEEDED = os.path.join(HOME, "seeded")
 # mutations whose property is decided through another property's check as well
-EXTRA = {"C02_r2_m2": ["C13"], "C04_r4_m2": ["C14"], "C05_r6_m2": ["C01"], "C12_r7_m2": ["C16"], "C18_r7_m2": ["C16"]}
+EXTRA = {"C02_r2_m2": ["C13"], "C04_r4_m2": ["C14"], "C05_r6_m2": ["C01"], "C12_r7_m2": ["C16"], "C18_r7_m2": ["C16"], "C01_r7_m2": ["C05"]}
 
 
 def sh(cmd, **kw):
